@@ -144,6 +144,7 @@ var selValues = []string{
 	"n", "T", "i7", "d3ff8000000000000", "s68c3a96c6c6f", "s", "s61ff62", "b010203", "b",
 	"l(i1,s78,l(i2,i3))", "l()", "m(61:m(61:i1,62:l(i1,i2)),:i9,62:l(i10,i20,i30))", "m()",
 	"l(m(61:i1),m(61:i2,62:i3))", "m(7a7a:n,61:l())", "m(61:s616263,62:b0a0b0c)", "l(n,n)", "m(61:n)",
+	"sff", "se282acc0af41", // invalid UTF-8 only; a valid 3-byte rune followed by an overlong form and a letter
 }
 
 // selClass abbreviates the shape of a selector (one letter per segment, "?" when optional) so that
